@@ -61,4 +61,33 @@ def deqF32 (p : Nat) : Nat :=
   let v : Int := if p < 32768 then (p : Int) else (p : Int) - 65536
   Blk.bits (Float32.ofInt v / 32767.0)
 
+/-! ### AuEncode::work -/
+
+/-- state: the header bytes not yet written (`None` once the header is out) -/
+abbrev EncSt := Option (List Nat)
+
+def encWork (q : Nat → Nat) (st : EncSt) (v : View) : EncSt × Out :=
+  let free := (out0 v).free
+  match st with
+  | some h =>
+    if free == 0 then (st, noOut v (.waitOut 0 1))
+    else
+      let n := min h.length free
+      let rest := h.drop n
+      (if rest.isEmpty then none else some rest,
+       { consumed := [0], produced := [⟨h.take n, []⟩], verdict := .again })
+  | none =>
+    let i := (in0 v).samples
+    if i.isEmpty then (st, noOut v (.waitIn 0 1))
+    else
+      let n := min i.length (free / 2)
+      if n == 0 then (st, noOut v (.waitOut 0 2))
+      else (st, { consumed := [n], produced := [⟨(i.take n).flatMap fun x => beBytes 2 (q x), []⟩], verdict := .again })
+
+def encBlock (bitrate : Nat) (q : Nat → Nat) : Block :=
+  { σ := EncSt, init := some (header bitrate), work := encWork q, eof := fun _ v => macroEof v }
+
+/-- `(x * 32767.0) as i16` on an `f32` bit pattern, as a 16-bit two's-complement pattern -/
+def qF32 (x : Nat) : Nat := ((Blk.f32 x * 32767.0).toInt16.toUInt16).toNat
+
 end RR.Au
